@@ -133,7 +133,8 @@ impl UCICommand {
                 "wtime" => {
                     idx += 1;
                     limits = limits.white_time(Some(
-                        args[idx]
+                        args.get(idx)
+                            .ok_or("Missing value for wtime")?
                             .parse()
                             .map_err(|e| format!("Failed to parse wtime value: {e}"))?,
                     ));
@@ -141,7 +142,8 @@ impl UCICommand {
                 "btime" => {
                     idx += 1;
                     limits = limits.black_time(Some(
-                        args[idx]
+                        args.get(idx)
+                            .ok_or("Missing value for btime")?
                             .parse()
                             .map_err(|e| format!("Failed to parse btime value: {e}"))?,
                     ));
@@ -149,7 +151,8 @@ impl UCICommand {
                 "winc" => {
                     idx += 1;
                     limits = limits.white_increment(Some(
-                        args[idx]
+                        args.get(idx)
+                            .ok_or("Missing value for winc")?
                             .parse()
                             .map_err(|e| format!("Failed to parse winc value: {e}"))?,
                     ));
@@ -157,7 +160,8 @@ impl UCICommand {
                 "binc" => {
                     idx += 1;
                     limits = limits.black_increment(Some(
-                        args[idx]
+                        args.get(idx)
+                            .ok_or("Missing value for binc")?
                             .parse()
                             .map_err(|e| format!("Failed to parse binc value: {e}"))?,
                     ));
@@ -166,7 +170,8 @@ impl UCICommand {
                 "depth" => {
                     idx += 1;
                     limits = limits.depth(Some(
-                        args[idx]
+                        args.get(idx)
+                            .ok_or("Missing value for depth")?
                             .parse()
                             .map_err(|e| format!("Failed to parse depth value: {e}"))?,
                     ));
@@ -174,7 +179,8 @@ impl UCICommand {
                 "nodes" => {
                     idx += 1;
                     limits = limits.nodes(Some(
-                        args[idx]
+                        args.get(idx)
+                            .ok_or("Missing value for nodes")?
                             .parse()
                             .map_err(|e| format!("Failed to parse nodes value: {e}"))?,
                     ));
@@ -183,7 +189,8 @@ impl UCICommand {
                 "movetime" => {
                     idx += 1;
                     limits = limits.movetime(Some(
-                        args[idx]
+                        args.get(idx)
+                            .ok_or("Missing value for movetime")?
                             .parse()
                             .map_err(|e| format!("Failed to parse movetime value: {e}"))?,
                     ));
